@@ -189,7 +189,7 @@ Proof.
     cbv zeta. destruct (valid_dev r (bcast_dev dst idev)) eqn:E; [|apply IP_same; auto].
     apply osend_inv; auto. intros r1 H1. eapply IP_step; eauto. apply send_rx_list_ok; [eapply Inv_G; eauto|eapply valid_dev_range; eauto].
   - (* SendHeartbeat(force) *)
-    destruct (negb (is_active_node (rn r))); [apply IP_same; auto|].
+    destruct (negb (is_active_node (rn r)) || negb (n_open (rn r) =? 3)); [apply IP_same; auto|].
     apply send_heartbeat_api_inv; auto; [lia|]. rewrite (Inv_devs _ _ _ _ HI). lia.
   - (* SendHeartbeat(iDev) *)
     destruct (is_active_node (rn r)); cbn [andb]; [|apply IP_same; auto].
